@@ -379,6 +379,10 @@ def gen_case(ctx):
             'npts': [rng.randint(npar + 2, npar + 6) for _ in range(nk)], 'ens': sorted(rng.sample(['A', 'B', 'C'], rng.choice([1, 2, 3]))),
             'corr': rng.choice([0.0, 0.5, 1.5]), 'method': rng.choice(['LM', 'LM', 'LM', 'migrad', 'Nelder-Mead', 'Powell']),
             'correlated': rng.random() < 0.3, 'num_grad': rng.random() < 0.2, 'perm': rng.random() < 0.5, 'priors': rng.random() < 0.4}
+    if b == '2d' and rng.random() < 0.35:
+        # as many data points as abscissa dimensions: x is a square array in the documented (n_dims, n_points) layout
+        case['npar'] = npar = rng.choice([1, 1, 2])
+        case['npts'] = [2 for _ in range(nk)]
     case['S_data'] = rng.choice([2.0, 2.0, 0.0, 4.0])
     case['guess'] = [None, None, 1.3, 0.6][case['seed'] % 4]
     if case['correlated'] and rng.random() < 0.5:
